@@ -379,7 +379,8 @@ def emitSwitch (rt : Res) (cases : List (List Pat × (Nat → Res))) : Res :=
   let tw := test.length
   let general : Res :=
     let rc := runCases cases rt.next
-    let sh := rc.cases.foldl (fun (acc : Shape) c => Shape.unify acc ⟨c.2.1.length, c.2.2⟩) (Shape.u 0)
+    -- `Shape._unify` of all `(len(value), signed)`: the n-ary join, written with the binary one as `SwitchValue.shape` is
+    let sh := rc.cases.foldr (fun c (acc : Shape) => Shape.unify ⟨c.2.1.length, c.2.2⟩ acc) (Shape.u 0)
     let elems := rc.cases.map (fun c => (c.1, extendV c.2.1 c.2.2 sh.width))
     Res.after (rt.wires ++ rc.wires) (rt.nodes ++ rc.nodes) (emitAssignList test elems sh.width rc.next) sh.signed
   match cases with
@@ -429,6 +430,44 @@ def emitX (ctx : Amaranth.Ctx) : Expr → (Nat → Res) × List (List Pat × (Na
     (fun n => emitSwitch ((emitX ctx test).1 n) chain, chain)
 
 def emitE (ctx : Amaranth.Ctx) (e : Expr) (n : Nat) : Res := (emitX ctx e).1 n
+
+/-! ## side conditions of the correctness theorem (`Properties/C04.lean`, `emit_expr_correct_partial`) -/
+
+deriving instance DecidableEq for Expr
+
+/-- the cases of a choice, as `Expr` chains them -/
+def chainOf : Expr → List (List Pat × Expr)
+  | .ite _ pats thn els => (pats, thn) :: chainOf els
+  | _ => []
+
+/-- `e` continues a chain of cases over `test` -/
+def _root_.Amaranth.Expr.sameTest (test : Expr) : Expr → Bool
+  | .ite t _ _ els => decide (t = test) && sameTest test els
+  | _ => true
+
+/-- every chain of cases repeats one test expression (what a `SwitchValue` is; `Driver/ExprIO.parseExpr` only builds
+such chains) -/
+def _root_.Amaranth.Expr.chainsOk : Expr → Bool
+  | .const .. | .sig _ => true
+  | .op1 _ a => a.chainsOk
+  | .op2 _ a b => a.chainsOk && b.chainsOk
+  | .slice a _ _ => a.chainsOk
+  | .part a off _ _ => a.chainsOk && off.chainsOk
+  | .cat lo hi => lo.chainsOk && hi.chainsOk
+  | .ite t _ thn els => t.chainsOk && thn.chainsOk && els.chainsOk && els.sameTest t
+
+/-- every part-select of a *signed* value reads inside the extended operand, whatever the offset: the largest offset
+times the stride plus the width is at most `max(len(value), width)`.  Beyond that the emitted `$shift` shifts zeros in
+where the simulator reads the sign (finding F27). -/
+def _root_.Amaranth.Expr.partsInside (ctx : Amaranth.Ctx) : Expr → Bool
+  | .const .. | .sig _ => true
+  | .op1 _ a => a.partsInside ctx
+  | .op2 _ a b => a.partsInside ctx && b.partsInside ctx
+  | .slice a _ _ => a.partsInside ctx
+  | .part a off width stride => a.partsInside ctx && off.partsInside ctx &&
+      (!(shapeOf ctx a).signed || decide ((2 ^ widthOf ctx off - 1) * stride + width ≤ max (widthOf ctx a) width))
+  | .cat lo hi => lo.partsInside ctx && hi.partsInside ctx
+  | .ite t _ a b => t.partsInside ctx && a.partsInside ctx && b.partsInside ctx
 
 /-! ## the interface -/
 
